@@ -400,7 +400,7 @@ Lemma divide_unfold : forall fuel done ds avail g0 i g1,
   Forall valid ds -> ds <> [] -> zsum (mins ds) <= avail ->
   gen_init (seq 0 (length (weights ds))) (weights ds) = Some g0 ->
   next g0 = Some (i, g1) ->
-  divide fuel done ds avail =
+  divide_pinned fuel done ds avail =
   match grow next fuel (Z.min avail (zsum (prefs ds))) (prefs ds) (mins ds) i g1 with
   | None => OutOfFuel
   | Some (s1, i1, g2) =>
@@ -412,7 +412,7 @@ Lemma divide_unfold : forall fuel done ds avail g0 i g1,
   end.
 Proof.
   intros fuel done ds avail g0 i g1 Hv Hne Hfit Hinit Hn.
-  unfold divide. destruct ds as [|d0 dr]; [congruence|].
+  unfold divide_pinned. destruct ds as [|d0 dr]; [congruence|].
   rewrite (sum_layout_valid _ Hv). cbn [dmin dmax dpref].
   unfold weights in Hinit. rewrite map_length in Hinit.
   unfold mins in Hfit.
@@ -434,15 +434,15 @@ Qed.
    iterations per loop. *)
 Theorem divide_terminates : forall done ds avail fuel,
   Forall valid ds -> in_domain done ds avail -> (divide_fuel ds avail <= fuel)%nat ->
-  divide fuel done ds avail <> OutOfFuel.
+  divide_pinned fuel done ds avail <> OutOfFuel.
 Proof.
   intros done ds avail fuel Hv (Hdp & Hdm) Hfuel.
   destruct ds as [|d0 dr] eqn:Eds; [discriminate|]. rewrite <- Eds in *.
   assert (Hne : ds <> []) by (rewrite Eds; discriminate).
   destruct (Z_le_gt_dec (zsum (mins ds)) avail) as [Hfit|Hsmall].
-  2:{ assert (divide fuel done ds avail = TooSmall) as -> by (apply divide_too_small; auto). discriminate. }
+  2:{ assert (divide_pinned fuel done ds avail = TooSmall) as -> by (apply divide_too_small; auto). discriminate. }
   destruct (gen_init (seq 0 (length (weights ds))) (weights ds)) as [g0|] eqn:Hinit.
-  2:{ unfold divide. rewrite Eds. rewrite <- Eds. rewrite (sum_layout_valid _ Hv). cbn [dmin].
+  2:{ unfold divide_pinned. rewrite Eds. rewrite <- Eds. rewrite (sum_layout_valid _ Hv). cbn [dmin].
       assert (E : zsum (map dmin ds) >? avail = false) by (rewrite Z.gtb_ltb; apply Z.ltb_ge; unfold mins in Hfit; lia).
       rewrite E. unfold weights in Hinit. rewrite map_length in Hinit. rewrite Hinit. discriminate. }
   destruct (gen_init_spec _ _ Hinit) as (I0 & _).
@@ -490,7 +490,7 @@ Theorem divide_hangs : forall done ds avail,
   Forall valid ds -> zsum (mins ds) <= avail ->
   (exists c, 0 < nth c (weights ds) 0) ->
   ~ in_domain done ds avail ->
-  forall fuel, divide fuel done ds avail = OutOfFuel.
+  forall fuel, divide_pinned fuel done ds avail = OutOfFuel.
 Proof.
   intros done ds avail Hv Hfit (c & Hc) Hnd fuel.
   assert (Hne : ds <> []) by (intro; subst ds; destruct c; simpl in Hc; lia).
@@ -527,10 +527,10 @@ Qed.
 Theorem divide_no_weights : forall fuel done ds avail,
   Forall valid ds -> ds <> [] -> zsum (mins ds) <= avail ->
   (forall c, nth c (weights ds) 0 <= 0) ->
-  divide fuel done ds avail = NoWeights.
+  divide_pinned fuel done ds avail = NoWeights.
 Proof.
   intros fuel done ds avail Hv Hne Hfit Hz.
-  unfold divide. destruct ds as [|d0 dr] eqn:Eds; [congruence|]. rewrite <- Eds in *.
+  unfold divide_pinned. destruct ds as [|d0 dr] eqn:Eds; [congruence|]. rewrite <- Eds in *.
   rewrite (sum_layout_valid _ Hv). cbn [dmin].
   assert (E : zsum (map dmin ds) >? avail = false) by (rewrite Z.gtb_ltb; apply Z.ltb_ge; unfold mins in Hfit; lia).
   rewrite E.
@@ -541,7 +541,7 @@ Qed.
 (* the hand-found input (DESIGN F4) *)
 Definition f4_dims : list dim := [mkdim 0 5 5 0; mkdim 0 0 0 1].
 
-Theorem divide_f4_hangs : Forall valid f4_dims /\ forall fuel, divide fuel false f4_dims 10 = OutOfFuel.
+Theorem divide_f4_hangs : Forall valid f4_dims /\ forall fuel, divide_pinned fuel false f4_dims 10 = OutOfFuel.
 Proof.
   assert (Hv : Forall valid f4_dims).
   { repeat constructor; cbn [dmin dmax dpref dweight]; lia. }
@@ -556,12 +556,12 @@ Qed.
 (* ------------------------------------------------------------------ *)
 (* HSplit / VSplit: the division runs on _all_children *)
 
-Lemma split_divide_eq : forall fuel orient done align pad cs avail,
-  split_divide fuel orient done align pad cs avail =
+Lemma split_divide_eq : forall core fuel orient done align pad cs avail,
+  split_divide_with core fuel orient done align pad cs avail =
   if (orient =? 0) && (match cs with [] => true | _ => false end) then Sizes []
-  else divide fuel (if orient =? 0 then done else false) (all_children align pad cs) avail.
+  else core fuel (if orient =? 0 then done else false) (all_children align pad cs) avail.
 Proof.
-  intros. unfold split_divide, split_divide_with. destruct (orient =? 0); [|reflexivity].
+  intros. unfold split_divide_with. destruct (orient =? 0); [|reflexivity].
   destruct cs; reflexivity.
 Qed.
 
